@@ -26,7 +26,7 @@ MANIFEST = dict(
          '(the property). Visibility lumps are decoded by an independent reader and compared with the layout the specification '
          'prescribes; static props are round-tripped in all 13 format versions against the field-presence table; boundary values '
          'of the integer and string fields are judged by the Fits law; all views parsed from independently encoded files of every '
-         'layout are transplanted into an empty BSP and must project equal after save and re-read.',
+         'layout are transplanted into an empty BSP and must project equal after save and re-read. The deferred-offset writer used by the binary writers (binformat.DeferredWrites) has its own model (Deferred), transitions replayed by path on the real class over a BytesIO.',
     design_ref='4 (C11)',
     note='Trusts TLC, the independent BSP synthesiser/decoder (vlib/bspsynth.py) and the tagging of objects by scalar fields. '
          'Float fields carry float32-representable values. Pure-Python tree only.',
